@@ -31,6 +31,7 @@ import (
 type httpAPI struct {
 	router http.Handler
 	nreq   int
+	lastLog *bytes.Buffer // log lines of the last request (the cause behind an INTERNAL envelope)
 }
 
 func newHTTPAPI(st *Stack) *httpAPI {
@@ -50,13 +51,14 @@ func (h *httpAPI) do(method, path string, hdr map[string]string, body string) (r
 	for k, v := range hdr {
 		req.Header.Set(k, v)
 	}
-	if body != "" {
+	if _, ok := hdr["Content-Type"]; !ok && body != "" {
 		req.Header.Set("Content-Type", "application/json")
 	}
 	if h.nreq%2 == 1 { // every other request asks for the views.go renderers (big integers as strings)
 		req.Header.Set("Formance-Bigint-As-String", "true")
 	}
-	req = req.WithContext(logging.ContextWithLogger(req.Context(), logging.NewDefaultLogger(new(bytes.Buffer), false, false, false)))
+	h.lastLog = new(bytes.Buffer)
+	req = req.WithContext(logging.ContextWithLogger(req.Context(), logging.NewDefaultLogger(h.lastLog, false, false, false)))
 	rec := httptest.NewRecorder()
 	func() {
 		defer func() {
